@@ -161,6 +161,8 @@ class Built:
     def default_script(self):
         nj = self.case["net"]
         s = [["link", k["up"], l, k["down"]] for l, k in nj["links"].items()]
+        if zlib.crc32(f"{self.case.get('id')}|order".encode()) % 2 == 1:
+            s.reverse()     # downstream part first
         s += [["origin", o, k["node"]] for o, k in nj["origins"].items()]
         s += [["dest", d, k["node"]] for d, k in nj["dests"].items()]
         return s
@@ -346,6 +348,10 @@ def observe(case: dict) -> dict:
     """run everything the case asks for; never raises"""
     global REUSE_ENGINES
     REUSE_ENGINES = zlib.crc32(f"{case.get('id')}|engines".encode()) % 2 == 1
+    # every call below passes its engine explicitly: which engine happens to be SELECTED in the process must not matter
+    from sym_metanet import engines as _eng
+    _sel = zlib.crc32(f"{case.get('id')}|selected".encode()) % 3
+    _eng.use("numpy") if _sel == 1 else _eng.use(cs_engine("MX")) if _sel == 2 else _eng.use("casadi")
     want = case.get("want") or {}
     obs = {"valid": False, "nmsgs": 0, "valid_err": "", "elements": [], "elements_ok": False,
            "np": {"has": False}, "np_plain": {"has": False}, "steps": [], "fn": [], "jac": [], "sens": [],
@@ -378,7 +384,7 @@ def observe(case: dict) -> dict:
     if want.get("np", True):
         o = {"has": True, "ok": False, "err": "", "y": {"rho": {}, "v": {}, "w": {}}, "shapes": True,
              "flows": {"has": False, "q": {}, "qo": {}, "err": ""},
-             "feedback": {"has": False, "ya": {"rho": {}, "v": {}, "w": {}}, "yb": {"rho": {}, "v": {}, "w": {}}, "err": ""}}
+             "feedback": {"has": False, "pairs": [], "err": ""}}
         o["pure"] = {"has": False}
         try:
             # C12 (pure): the caller's arrays in three representations, chosen per case
@@ -513,7 +519,7 @@ def observe(case: dict) -> dict:
         obs["np"] = o
     # ---- the caller feeds the very next-state OBJECTS back as initial conditions, after disturbing them in place
     if want.get("feedback", False) and obs["np"].get("ok"):
-        fbk = {"has": False, "ya": {"rho": {}, "v": {}, "w": {}}, "yb": {"rho": {}, "v": {}, "w": {}}, "err": ""}
+        fbk = {"has": False, "pairs": [], "err": ""}
         try:
             b4, eng4 = Built(case, arrays=True), np_engine()
             ic4 = b4.np_init(x, u, d)
@@ -529,11 +535,20 @@ def observe(case: dict) -> dict:
                 ic5[el_] = e5
             vals5 = {b4.idof[el_]: {k_: np.array(v_, float).copy() for k_, v_ in dd.items()} for el_, dd in ic5.items()}
             b4.net.step(init_conditions=ic5, engine=eng4, **okw, **kw)
-            fbk["ya"], _ = b4.read_next()
+            ya_, _ = b4.read_next()
             b5 = Built(case, arrays=True)
             ob5 = lambda i_: b5.links.get(i_) or b5.origins.get(i_) or b5.dests.get(i_)  # noqa: E731
             b5.net.step(init_conditions={ob5(i_): dd for i_, dd in vals5.items()}, engine=np_engine(), **okw, **kw)
-            fbk["yb"], _ = b5.read_next()
+            fbk["pairs"].append({"name": "fed-back", "ya": ya_, "yb": b5.read_next()[0]})
+            # omitted variables are created by the engine of THIS step (fill 3.0), whatever engine stepped before (0.5)
+            from sym_metanet.engines.numpy import Engine as _NE
+            part = lambda bb: {el_: dd for el_, dd in bb.np_init(x, u, d).items() if el_ not in bb.links.values()}  # noqa: E731
+            b6 = Built(case, arrays=True)
+            b6.net.step(engine=_NE(0.5), **okw, **kw)
+            b6.net.step(init_conditions=part(b6), engine=_NE(3.0), **okw, **kw)
+            b7 = Built(case, arrays=True)
+            b7.net.step(init_conditions=part(b7), engine=_NE(3.0), **okw, **kw)
+            fbk["pairs"].append({"name": "fill", "ya": b6.read_next()[0], "yb": b7.read_next()[0]})
             fbk["has"] = True
         except BaseException as e:  # noqa: BLE001
             fbk["err"] = errstr(e)
@@ -666,12 +681,16 @@ def run_fn(case, spec, x, u, d, rng):
             for o_, ob in b.origins.items():
                 if case["net"]["origins"][o_]["kind"] != "ideal":
                     ic[ob] = {"w": g(eng.sym_type.sym(f"w_{ob.name}_c", 1, 1))}
-        if not decl and ic is None and zlib.crc32(f"{case.get('id')}|{sym}{compact}|refn".encode()) % 3 == 0:
+        if ic is None and zlib.crc32(f"{case.get('id')}|{sym}{compact}|refn".encode()) % 3 == 0:
             # the history before compiling is not part of the function's meaning: step with OTHER parameters, compile
             # (throw-away), then step every element again by hand with the case's parameters, without re-initialising
-            other_kw = dict(kw, T=kw["T"] * 1.5, tau=kw["tau"] * 0.8)
+            nk = par_kwargs(case)     # numbers only: a trial run before the symbolic one
+            other_kw = dict(nk, T=nk["T"] * 1.5, tau=nk["tau"] * 0.8)
             lib(b.net.step, engine=eng, **opt_kwargs(case), **other_kw)
-            lib(eng.to_function, b.net, compact=0, more_out=True, **other_kw)
+            # (symbols inside the elements - symbolic link parameters, capacities - are declared, the trial run's model
+            # parameters are numbers)
+            trial_pd = {name: s_ for name, s_, p_ in decl if p_["kind"] not in MODEL_PARAMS}
+            lib(eng.to_function, b.net, compact=0, more_out=True, parameters=trial_pd or None, **other_kw)
             ok_ = opt_kwargs(case)
             for ob in b.net.origins:
                 if ob.has_states:
@@ -772,6 +791,9 @@ def observe_spy(case, x, u, d, okw, kw):
             rec = {"selected": sel, "explicit": exp, "ok": False, "err": "", "log": [], "kinds": [], "selection_kept": False}
             spy = liferun.make_spy({"np": np_engine("rand"), "sx": cs_engine("SX"), "mx": cs_engine("MX")}[sel])
             explicit = {"np": np_engine("rand"), "sx": cs_engine("SX"), "mx": cs_engine("MX")}[exp]
+            if exp == "np":
+                from sym_metanet.engines.numpy import Engine as _NE
+                explicit, _decoy = _NE(0.5), _NE(3.0)    # the explicit engine fills what it creates with 0.5; another one exists
             engines.use(spy)
             try:
                 b = Built(case)
@@ -784,6 +806,19 @@ def observe_spy(case, x, u, d, okw, kw):
                             for v in (grp or {}).values():
                                 kinds.add(liferun.kind_of_value(v))
                 kept = engines.get_current_engine() is spy
+                if exp == "np":
+                    # variables the caller does not supply are created by the EXPLICIT engine, with its own configuration
+                    b2 = Built(case)
+                    b2.net.step(engine=explicit, **okw, **kw)
+                    odd = []
+                    for table in (b2.links, b2.origins, b2.dests):
+                        for i_, ob in table.items():
+                            for grp in (ob.states, ob.actions, ob.disturbances):
+                                for k_, v_ in (grp or {}).items():
+                                    if not np.all(np.asarray(v_, float) == 0.5):
+                                        odd.append(f"{k_} of {i_}")
+                    if odd:
+                        raise RuntimeError("variables created under an explicit NumPy engine configured to fill with 0.5 hold other values: " + ", ".join(odd[:4]))
                 # ... and a step with the explicit engine that FAILS part-way (no sampling time given): the caller catches
                 # the error and carries on; the selection must still be its own
                 try:
